@@ -4,9 +4,9 @@ EXTENDS DateAbs
 BoundaryDates(years) == { t \in years \X (1..12) \X (1..31) : t[3] \in {1, DaysInMonth(t[1], t[2])} \/ (t[2] = 2 /\ t[3] \in {28, 29} /\ t[3] <= DaysInMonth(t[1], t[2])) \/ (t[2] \in {3, 11} /\ t[3] \in {5, 12, 13, 22, 23}) }
 AllDates(years) == { t \in years \X (1..12) \X (1..31) : t[3] <= DaysInMonth(t[1], t[2]) }
 QDates == BoundaryDates({1900, 2000, 2024, 2099}) \cup { <<1999, 12, 31>>, <<2016, 11, 7>>, <<1987, 3, 31>>, <<2010, 10, 10>> }
-TDates == AllDates({1900, 2000, 2024}) \cup BoundaryDates({1901, 1950, 1999, 2001, 2023, 2038, 2050, 2096, 2099})
+TDates == AllDates({2024}) \cup BoundaryDates({1900, 1999, 2000, 2038, 2099})
 QRefs == {"1950-01-01T00:00:00", "2016-11-07T12:00:00"}
-TRefs == QRefs \cup {"2024-02-29T23:59:00", "2089-12-31T08:00:00"}
+TRefs == QRefs \cup {"2024-02-29T23:59:00"}
 AllCases == TLCEval(Cases)
 VARIABLES c, pc
 vars == <<c, pc>>
